@@ -151,12 +151,14 @@ func (ru *c15Run) applyChanges() error {
 }
 
 // readback asks the management API what it reports for the objects the change touched.
-func (ru *c15Run) readback() []string {
+func (ru *c15Run) readback() []string { return ru.readbackFor(ru.c.changes, ru.c.p2) }
+
+func (ru *c15Run) readbackFor(changes []*c15Change, prog *c15Prog) []string {
 	var out []string
-	for _, ch := range ru.c.changes {
+	for _, ch := range changes {
 		switch {
 		case strings.HasPrefix(ch.Target, "set:"):
-			set := ru.c.p2.set(strings.TrimPrefix(ch.Target, "set:"))
+			set := prog.set(strings.TrimPrefix(ch.Target, "set:"))
 			ru.n.s.ListDefinedSet(c15Ctx, &api.ListDefinedSetRequest{DefinedType: set.DefinedType, Name: set.Name}, func(d *api.DefinedSet) {
 				// members are a set: canonical order
 				e := proto.Clone(d).(*api.DefinedSet)
@@ -672,8 +674,14 @@ func c15RunFresh(t *testing.T, c *c15Case, p *c15Prog, routes []c15Ann, rb *[]st
 func TestVerifC15(t *testing.T) {
 	rec := vlib.Open("C15")
 	defer rec.Close()
-	total := vlib.Scale(480, 14400)
+	// three single-change pairs (with the repeat and the racing oracles), then one multi-round history
+	total := vlib.Scale(640, 19200)
 	vlib.Cases(total, func(idx int) {
+		if idx%4 == 3 {
+			rec.Mark(fmt.Sprintf("c15 history %d", idx), true)
+			c15HistoryCase(t, rec, idx)
+			return
+		}
 		rec.Mark(fmt.Sprintf("c15 pair %d", idx), true)
 		c15Pair(t, rec, idx)
 	})
